@@ -1784,7 +1784,7 @@ def run(ctx):
         os.chdir(ctx.workdir)
     _install_registry()
 
-    n   = ctx.n(9600, 400000)
+    n   = ctx.n(9600, 1200000)
     off = ctx.shard * 7
     for i in range(n):
         if i % 4 == 3:
